@@ -257,7 +257,7 @@ func (mb *aatMapBuilder) compile(m *aatMap) {
 			// Save a snapshot of active features and the range.
 
 			// sort features and merge duplicates
-			mb.currentFeatures = activeFeatures
+			mb.currentFeatures = append(mb.currentFeatures[:0], activeFeatures...) // a copy: it is sorted and merged in place
 			mb.rangeFirst = lastIndex
 			mb.rangeLast = event.index - 1
 			if len(mb.currentFeatures) != 0 {
